@@ -192,7 +192,43 @@ def job_rel(tid, src, cfg_a, cfg_b, evm="cancun", scale=1, havoc=True):
             if not feasible(both, 2000):
                 continue
             goal = z3.Implies(both, same_outcome(a, b, idx, regions))
-            discharge(obs, "same-observable-outcome", goal, timeout_ms=timeout, replay=dict(replay, a=describe(a), b=describe(b)), eval_terms=terms)
+            discharge(obs, "same-observable-outcome", goal, hyps=list(env.assumptions), timeout_ms=timeout, replay=dict(replay, a=describe(a), b=describe(b)), eval_terms=terms)
+    return number(obs)
+
+
+def job_rel_evm(tid, src, cfg, evm_a, evm_b, scale=1):
+    """the same configuration on two EVM targets"""
+    from vyper.exceptions import VyperException
+
+    obs = []
+    timeout = 20000 * scale
+    replay = {"kind": "rel", "tid": tid, "src": src, "cfg_a": cfg, "cfg_b": cfg, "evm": evm_a, "evm_b": evm_b}
+    try:
+        T.compile_runtime(src, cfg, evm_a)
+        T.compile_runtime(src, cfg, evm_b)
+    except VyperException as e:
+        fact(obs, "feature-exists-on-both-targets", True, note=f"not compared: {type(e).__name__}")
+        return number(obs)
+    env = Mx.Env()
+    env.reentrancy_havoc = True
+    budget = {"max_steps": 40000, "max_paths": 600}
+    try:
+        A = run_cfg(src, cfg, evm_a, env, budget)
+        B = run_cfg(src, cfg, evm_b, env, budget)
+    except Unsupported as e:
+        obs.append({"clause": "denote", "status": "unknown", "backend": "engine", "seconds": 0, "model": None, "note": "outside the bytecode denotation: " + str(e)})
+        return number(obs)
+    idx = z3.BitVec("idx!", 256)
+    terms = T.cd_eval_terms(env, 8)
+    regions = slack_regions(T.compile_full(src, cfg, evm_a)["layout"])
+    for name, outs in ((evm_a, A), (evm_b, B)):
+        discharge(obs, f"paths-exhaustive[{name}]", z3.Or(*[o.pc for o in outs]), hyps=list(env.assumptions), timeout_ms=timeout, replay=replay)
+    for a in A:
+        for b in B:
+            both = z3.And(a.pc, b.pc)
+            if not feasible(both, 2000):
+                continue
+            discharge(obs, "same-observable-outcome", z3.Implies(both, same_outcome(a, b, idx, regions)), hyps=list(env.assumptions), timeout_ms=timeout, replay=dict(replay, a=describe(a), b=describe(b)), eval_terms=terms)
     return number(obs)
 
 
@@ -204,14 +240,15 @@ def replay_rel(o):
     cd = T.calldata_from_model(m)
     val = m.get("callvalue", 0)
     res = {}
-    for cfg in (r["cfg_a"], r["cfg_b"]):
+    runs = [(r["cfg_a"], r["evm"]), (r["cfg_b"], r.get("evm_b", r["evm"]))]
+    for cfg, evm in runs:
         try:
-            res[cfg] = T.native_call(r["src"], cfg, cd, value=val, evm_version=r["evm"])
+            res[cfg + "@" + evm] = T.native_call(r["src"], cfg, cd, value=val, evm_version=evm)
         except Exception as e:
-            res[cfg] = ("error", repr(e)[:200].encode())
-    a, b = res[r["cfg_a"]], res[r["cfg_b"]]
+            res[cfg + "@" + evm] = ("error", repr(e)[:200].encode())
+    a, b = [res[c + "@" + e] for c, e in runs]
     differs = a[0] != b[0] or (a[0] == "return" and a[1] != b[1])
-    det = f"calldata=0x{cd.hex()} value={val}: " + "; ".join(f"{k}: {v[0]} {v[1][:64].hex() if v[0] == 'return' else ''}" for k, v in res.items())
+    det = f"calldata=0x{cd.hex()[:600]} value={val}: " + "; ".join(f"{k}: {v[0]} {v[1][:64].hex() if v[0] == 'return' else ''}" for k, v in res.items())
     # a difference in storage/events only is not visible through this simple replay: report as not decided by replay
     return {"reproduced": True if differs else None, "detail": det + ("" if differs else " (status and return data agree natively; the model may differ in logs/state/outgoing calls only, or depends on prior state)")}
 
